@@ -267,12 +267,35 @@ theorem readFieldBegin_field (c : Nat) (bs : Bytes) (id : Nat) (r : Bytes) (hc :
       · simp [Gopkg.readFieldBegin, hc, e]
       · rw [advance_ok _ 3 (by simp)]; rw [hr]; rfl
 
-theorem fields_refine (P : Prog) (defs : List FieldDef) (hok : FieldsOK defs)
+/-- a skip path refines the strict skip of Gen.Std -/
+def SkipRefines (skip : Nat → Bytes → FRes Nat) : Prop :=
+  ∀ (c : Nat) (bs r : Bytes), Std.skipW c bs = some r → SkipsTo (skip c bs) bs r
+
+theorem gopkg_skipRefines : SkipRefines Gopkg.skip := skip_refines
+
+theorem guardedSkip_refines (n rc lg : Bool) : SkipRefines (guardedSkip n rc lg) := by
+  intro c bs r h
+  obtain ⟨k, hk, hle, hdr⟩ := skip_refines c bs r h
+  refine ⟨k, ?_, hle, hdr⟩
+  have hneg : Gopkg.neg c = false := by
+    unfold Std.skipW at h
+    cases ht : TType.ofCode c with
+    | none => simp [ht] at h
+    | some t =>
+      have := ofCode_some c t ht
+      have hc := TType.code_lt t
+      subst this
+      cases t <;> rfl
+  unfold guardedSkip
+  have : ¬ k > bs.length := by omega
+  simp [hneg, hk, this]
+
+theorem fields_refine (skip : Nat → Bytes → FRes Nat) (hsk : SkipRefines skip) (P : Prog) (defs : List FieldDef) (hok : FieldsOK defs)
     (rdS : Ty → Bytes → Option (GoVal × Bytes)) (rdF : Ty → Bytes → FRes (GoVal × Bytes))
     (hrd : ∀ ty bs v r, B256 bs → rdS ty bs = some (v, r) → rdF ty bs = .ok (v, r) ∧ B256 r) :
     ∀ (g : Nat) (bs : Bytes) (cur : List GoVal) (seen : List Bool) (res : List GoVal) (r : Bytes), B256 bs →
       Std.readFieldsWith rdS defs g bs cur seen = some (res, r) →
-      fastFieldsWith Gopkg.skip P rdF defs g bs cur seen = .ok (res, r) ∧ B256 r := by
+      fastFieldsWith skip P rdF defs g bs cur seen = .ok (res, r) ∧ B256 r := by
   intro g
   induction g with
   | zero => intro bs cur seen res r _ h; simp [Std.readFieldsWith] at h
@@ -312,7 +335,7 @@ theorem fields_refine (P : Prog) (defs : List FieldDef) (hok : FieldsOK defs)
             | none => simp [hs] at h
             | some r2 =>
               simp only [hs] at h
-              obtain ⟨k, hk, hle, hdr⟩ := skip_refines c r1 r2 hs
+              obtain ⟨k, hk, hle, hdr⟩ := hsk c r1 r2 hs
               simp only [hk]
               rw [advance_ok r1 k hle, hdr]
               exact ih r2 cur seen res r (by rw [← hdr]; exact hB1.drop k) h
@@ -334,7 +357,7 @@ theorem fields_refine (P : Prog) (defs : List FieldDef) (hok : FieldsOK defs)
               | none => simp [hs] at h
               | some r2 =>
                 simp only [hs] at h
-                obtain ⟨k, hk, hle, hdr⟩ := skip_refines c r1 r2 hs
+                obtain ⟨k, hk, hle, hdr⟩ := hsk c r1 r2 hs
                 simp only [hk]
                 rw [advance_ok r1 k hle, hdr]
                 exact ih r2 cur seen res r (by rw [← hdr]; exact hB1.drop k) h
@@ -343,8 +366,9 @@ def ProgOK (P : Prog) : Prop := ∀ (i : Nat) (sd : StructDef), P.structs[i]? = 
 
 /-- **FastRead refines the standard Read**: on every byte string the standard reader accepts, the code
 generated by fastgo (linked with gopkg) answers the same object and the same rest -/
-theorem fastReadTy_refines (P : Prog) (hP : ProgOK P) : ∀ (f : Nat) (ty : Ty) (bs : Bytes) (v : GoVal) (r : Bytes), B256 bs →
-    Std.readTy P.structs f ty bs = some (v, r) → fastReadTyWith Gopkg.skip P f ty bs = .ok (v, r) ∧ B256 r := by
+theorem fastReadTy_refines (skip : Nat → Bytes → FRes Nat) (hsk : SkipRefines skip) (P : Prog) (hP : ProgOK P) :
+    ∀ (f : Nat) (ty : Ty) (bs : Bytes) (v : GoVal) (r : Bytes), B256 bs →
+    Std.readTy P.structs f ty bs = some (v, r) → fastReadTyWith skip P f ty bs = .ok (v, r) ∧ B256 r := by
   intro f
   induction f with
   | zero => intro ty bs v r _ h; simp [Std.readTy] at h
@@ -352,7 +376,7 @@ theorem fastReadTy_refines (P : Prog) (hP : ProgOK P) : ∀ (f : Nat) (ty : Ty) 
     intro ty bs v r hB h
     by_cases hb : ty.isBase = true
     · rw [Std.readTy_base P.structs f ty bs hb] at h
-      exact scalar_refine Gopkg.skip P f ty bs v r hb hB h
+      exact scalar_refine skip P f ty bs v r hb hB h
     · cases ty <;> simp [Ty.isBase] at hb
       case list el =>
         simp only [Std.readTy] at h
@@ -463,7 +487,7 @@ theorem fastReadTy_refines (P : Prog) (hP : ProgOK P) : ∀ (f : Nat) (ty : Ty) 
             obtain ⟨fs, r'⟩ := q
             simp only [Prod.mk.injEq] at hv
             obtain ⟨rfl, rfl⟩ := hv
-            obtain ⟨e2, hB2⟩ := fields_refine P sd.fields (hP i sd hsd) _ _ (fun ty bs v r => ih ty bs v r) _ bs _ _ fs r' hB hq
+            obtain ⟨e2, hB2⟩ := fields_refine skip hsk P sd.fields (hP i sd hsd) _ _ (fun ty bs v r => ih ty bs v r) _ bs _ _ fs r' hB hq
             refine ⟨?_, hB2⟩
             simp only [fastReadTyWith, hs, hsd, hnx]
             simp [bind, e2]
